@@ -173,6 +173,18 @@ def run(tier, seed, replay):
     tp = os.path.join(vlib.WORK, "tui", "c17-long.ndjson")
     vlib.write_ndjson(tp, evs)
     traces.append(tp)
+    # `next N` for N in the millions is N clock keys - far beyond what TLC can step; here the oracle is the library itself (N calls of
+    # trigger_key_clock on a machine loaded with the same program), whose single step is what every other check validates
+    big_n = 7372800 + 1 + rng.randrange(5000) if tier == "quick" else 16777216 + 1 + rng.randrange(5000)
+    afile = sorted(files)[0]
+    recs4, _ = tc.run_script(["new"] + [tc.key_line(k) for k in tc.type_line("load " + afile) + tc.type_line("next %d" % big_n)], "c17-bignext", timeout=3000)
+    btp, _ = vlib.run_scenario([{"op": "new"}, {"op": "load_asm", "src": files[afile]}, {"op": "clock_bulk", "n": big_n}], "c17-bignext")
+    bulk = [e for e in vlib.read_ndjson(btp) if e["op"] == "bulk"][-1]["s"]
+    got = recs4[-1]["m"] if recs4 and recs4[-1].get("key_panic") is None else None
+    want = {"regs": bulk["regs"], "st": bulk["st"], "maddr": bulk["maddr"], "ir": bulk["ir"], "outr": bulk["outr"], "ramsum": bulk["ramsum"], "misr": bulk["misr"]}
+    if got is None or any(got[k] != want[k] for k in want):
+        v.violation("tui:next:big", "`next %d` does not leave the machine where %d clock keys leave it: session %s, library %s"
+                    % (big_n, big_n, {k: got[k] for k in want} if got else (recs4[-1].get("key_panic") if recs4 else None), want), {"n": big_n, "file": afile})
     results = vlib.validate_traces(traces, cfg="TraceTui")
     nev = 0
     for tp, tr in zip(traces, results):
